@@ -131,6 +131,8 @@ pub fn drive_dyn(n: usize, shape: &Shape, stream: &[u8], cuts: &[usize], use_ref
         256 => drive::<256>(shape, stream, cuts, use_ref),
         512 => drive::<512>(shape, stream, cuts, use_ref),
         1024 => drive::<1024>(shape, stream, cuts, use_ref),
+        8192 => drive::<8192>(shape, stream, cuts, use_ref),
+        90000 => drive::<90000>(shape, stream, cuts, use_ref),
         _ => panic!("harness bug: no accumulator capacity {}", n),
     }
 }
@@ -352,4 +354,28 @@ pub fn arb_long_frame_stream() -> BoxedStrategy<(usize, Shape, Vec<u8>)> {
             (n, shape, stream)
         })
         .boxed()
+}
+
+/// Frames of structured values with many elements (long sparse collections) and of very large blobs, for the capacities
+/// 8192 and 90000: (capacity, shape, stream of 1-3 frames)
+pub fn arb_big_value_stream() -> BoxedStrategy<(usize, Shape, Vec<u8>)> {
+    prop_oneof![
+        3 => (gen::arb_long_sparse(), 1usize..3).prop_map(|((shape, value), copies)| {
+            let enc = ref_encode(&shape, &value).unwrap().bytes;
+            let mut stream = vec![];
+            for _ in 0..copies {
+                stream.extend(refcobs::frame(&enc));
+            }
+            (8192usize, shape, stream)
+        }),
+        1 => (prop_oneof![Just(16383usize), Just(16384), Just(20000), Just(32767), Just(32768), Just(40000), Just(49151), Just(49152), Just(65535), Just(65536), Just(70000)], any::<u8>(), any::<bool>()).prop_map(|(n, fill, as_string)| {
+            let shape = if as_string { Shape::String } else { Shape::ByteBuf };
+            let value = if as_string { Value::Str(((b'a' + fill % 26) as char).to_string().repeat(n)) } else { Value::Bytes((0..n).map(|k| if k % 997 == 0 { 0 } else { nz(fill.wrapping_add(k as u8)) }).collect()) };
+            let enc = ref_encode(&shape, &value).unwrap().bytes;
+            let mut stream = refcobs::frame(&enc);
+            stream.extend(refcobs::frame(&ref_encode(&shape, &if as_string { Value::Str("ok".into()) } else { Value::Bytes(vec![1, 0, 2]) }).unwrap().bytes));
+            (90000usize, shape, stream)
+        }),
+    ]
+    .boxed()
 }
